@@ -16,6 +16,7 @@ verus! {
 //@include prelude/alloc.rs
 //@include prelude/iter.rs
 //@include prelude/str.rs
+//@include prelude/option.rs
 //@include prelude/try.rs
 
 #[verifier::external_type_specification]
@@ -306,14 +307,14 @@ impl Request {
             proof { assert(source_data.stream() == src0.skip(content_length as int)); }
 //@before? 2 Box::new(io::empty())
         proof { assert(source_data.stream() == src0); }
-//@closure 1 |h: &&Header| -> (b: bool) ensures b == hdr_is(**h, "Transfer-Encoding"@)
-//@closure 2 |h: &Header| -> (o: AsciiString) ensures o == h.value
-//@closure 3 |h: &&Header| -> (b: bool) ensures b == hdr_is(**h, "Content-Length"@)
-//@closure 4 |h: &Header| -> (o: &str) ensures o@ == h.value@
-//@closure 5 |h: &&Header| -> (b: bool) ensures b == hdr_is(**h, "Expect"@)
-//@closure 6 |h: &Header| -> (o: &str) ensures o@ == h.value@
-//@closure 7 |h: &&Header| -> (b: bool) ensures b == hdr_is(**h, "Connection"@)
-//@closure 8 |h: &Header| -> (o: &str) ensures o@ == h.value@
+//@closure ~equiv("Transfer-Encoding")~ |h: &&Header| -> (b: bool) ensures b == hdr_is(**h, "Transfer-Encoding"@)
+//@closure ~h.value.clone()~ |h: &Header| -> (o: AsciiString) ensures o == h.value
+//@closure ~equiv("Content-Length")~ |h: &&Header| -> (b: bool) ensures b == hdr_is(**h, "Content-Length"@)
+//@closure ~h.value.as_str()~ after ~"Content-Length"~ |h: &Header| -> (o: &str) ensures o@ == h.value@
+//@closure ~equiv("Expect")~ |h: &&Header| -> (b: bool) ensures b == hdr_is(**h, "Expect"@)
+//@closure ~h.value.as_str()~ after ~"Expect"~ |h: &Header| -> (o: &str) ensures o@ == h.value@
+//@closure ~equiv("Connection")~ |h: &&Header| -> (b: bool) ensures b == hdr_is(**h, "Connection"@)
+//@closure ~h.value.as_str()~ after ~"Connection"~ |h: &Header| -> (o: &str) ensures o@ == h.value@
 //@entry
     let ghost src0 = source_data.stream();
     broadcast use axiom_find_post, axiom_contains_str, lemma_as_ref_index, lemma_as_ref_index_fwd, axiom_spec_from, axiom_starts_with_char;
